@@ -170,8 +170,14 @@ def r2_pipeline(ctx):
             ctx.violated(NB, "BaseNode.modify_value", what, detail=wrong, expected="self.units_raw")
         else:
             ctx.form(all(u_ == "self.units_raw" for u_ in none_units), NB, "BaseNode.modify_value", what, detail=sorted(set(none_units)))
-    # conversion in NumberType.convert: decision table over (unit given, own unit present, units equal, environment given)
-    from ..flowexpr import consistent, reduce_ifexp
+    conversion_table(ctx)
+
+
+def conversion_table(ctx):
+    """NumberType.convert: decision table over (unit given, own unit present, units equal, environment given, array);
+    tests over the number held are free.  Shared with C16.R3 (options and conditions are compared after this conversion)
+    and C17.R4."""
+    from ..flowexpr import consistent, paths, reduce_ifexp
     fn = ctx.fn(TN, "NumberType.convert")
     pa = [a.arg for a in fn.args.args]
     if len(pa) != 3:
@@ -188,10 +194,15 @@ def r2_pipeline(ctx):
         for own in (True, False):
             for equal in (True, False):
                 for noenv, isarr in ((a, b) for a in (True, False) for b in (True, False)):
-                    def atom(e, _g=given, _o=own, _e=equal, _n=noenv, _a=isarr):
+                  for free in (True, False):
+                    # a test over the *number* held (zero, sign, any()) is not part of the cell: both of its outcomes are
+                    # values a node can hold, so the table is evaluated once with every such test true and once false
+                    def atom(e, _g=given, _o=own, _e=equal, _n=noenv, _a=isarr, _f=free):
                         t = norm(e)
                         if t in arr_atoms:
                             return arr_atoms[t] == _a
+                        if "self.value" in t and not t.startswith("isinstance(") and not t.startswith("hasattr(") and (t.startswith(("np.any(", "np.all(", "not np.any(", "not np.all(")) or " == 0" in t or " != 0" in t or t in ("self.value", "not self.value")):
+                            return _f
                         if t in ("isinstance(self.value, list)", "isinstance(self.value, tuple)", "isinstance(self.value, (list, tuple))", "isinstance(self.value, (tuple, list))"):
                             return False          # neither a scalar nor the numpy array cast_value builds (established below) is a list
                         return {u: _g, "self.unit": _o, f"self.unit != {u}": not _e, f"self.unit == {u}": _e, f"{u} != self.unit": not _e, f"{u} == self.unit": _e,
